@@ -60,6 +60,13 @@ def forceDen (cfg : Cfg) : E → Bool
   | .quot false _ _ => cfg.mpQuotient
   | _ => false
 
+/-- one term of `map_sum`: `np` = the minus-term operand tokens if the child is a minus-one product, `pf` = the child
+printed at `PREC_SUM` -/
+def termTok (np : Option (List Tok)) (pf : List Tok) (first : Bool) : List Tok :=
+  match np with
+  | some ts => [minus] ++ ts
+  | none => (if first then [] else [plus]) ++ pf
+
 mutual
 def printF (cfg : Cfg) : E → Nat → List Tok
   | .ilit n, _ => if n < 0 then [minus, num n.natAbs] else [num n.toNat]
@@ -114,10 +121,7 @@ def printTail (cfg : Cfg) (op : Tok) : List E → Nat → List Tok
 the leading `+` is dropped. -/
 def printTerms (cfg : Cfg) : List E → Bool → List Tok
   | [], _ => []
-  | c :: cs, first =>
-      (match negPart cfg c with
-       | some ts => [minus] ++ ts
-       | none => (if first then [] else [plus]) ++ printF cfg c PREC_SUM) ++ printTerms cfg cs false
+  | c :: cs, first => termTok (negPart cfg c) (printF cfg c PREC_SUM) first ++ printTerms cfg cs false
 end
 
 /-- meaning of an integer constant -/
